@@ -72,7 +72,8 @@ type csptpSeen struct {
 func (h *csptpLog) Enabled(context.Context, slog.Level) bool { return true }
 func (h *csptpLog) WithAttrs([]slog.Attr) slog.Handler       { return h }
 func (h *csptpLog) WithGroup(string) slog.Handler            { return h }
-func (h *csptpLog) Handle(_ context.Context, r slog.Record) error {
+func (h *csptpLog) Handle(ctx context.Context, r slog.Record) error {
+	discardLog.Handler().Handle(ctx, r) // format it as a verbose service would
 	if r.Message != "received request" {
 		return nil
 	}
@@ -158,7 +159,7 @@ func setupNet() *netEnv {
 		e.srvIP, e.peerIP = ownAddr(8), ownAddr(108)
 		e.clog = &csptpLog{}
 		ctx := context.Background()
-		quiet := slog.New(slog.DiscardHandler)
+		quiet := discardLog
 		cert := selfSigned()
 		e.tlsSrv = &tls.Config{Certificates: []tls.Certificate{cert}, NextProtos: []string{"ntske/1"}, MinVersion: tls.VersionTLS13}
 		server.StartIPServer(ctx, quiet, &net.UDPAddr{IP: e.srvIP, Port: ipPort}, 0, e.provider)
@@ -499,9 +500,10 @@ func (e *netEnv) runSCION(a []val) string {
 		})
 		ss = append(ss, lib.Bool(ok))
 		if !ok {
-			break
+			return lib.V("1", lib.L(ss...))
 		}
 	}
+	ss = append(ss, e.scionFinalSentinels()...)
 	return lib.V("1", lib.L(ss...))
 }
 
@@ -733,7 +735,7 @@ func sentinelLost(kind, outs string) bool {
 
 func runNet1(j job) (string, bool) {
 	switch j.kind {
-	case "srv.ip", "srv.scion", "srv.csptp", "srv.ntske", "srv.kestall", "srv.quic", "cli.ip", "cli.nts", "cli.scion", "cli.csptp":
+	case "srv.ip", "srv.scion", "srv.scionnts", "srv.scionauth", "srv.csptp", "srv.ntske", "srv.kestall", "srv.quic", "srv.quicke", "cli.scionnts", "cli.overlap", "cli.ipopt", "cli.ip", "cli.nts", "cli.scion", "cli.csptp":
 	default:
 		return "", false
 	}
@@ -742,8 +744,10 @@ func runNet1(j job) (string, bool) {
 	switch j.kind {
 	case "srv.ip":
 		return e.runIP(a), true
-	case "srv.scion":
+	case "srv.scion", "srv.scionnts", "srv.scionauth":
 		return e.runSCION(a), true
+	case "srv.quicke":
+		return e.runQUICKE(a), true
 	case "srv.csptp":
 		return e.runCSPTPServer(a), true
 	case "srv.ntske":
